@@ -76,9 +76,14 @@ class TlsProtocolVersion(ProtocolVersionBase, GradeableSimple):
     def __lt__(self, other):
         if self.major == other.major:
             return self.minor < other.minor
-        if self.is_draft:
+
+        self_is_pre_release = self.is_draft or self.is_google_experimental
+        other_is_pre_release = other.is_draft or other.is_google_experimental
+        if self_is_pre_release and other_is_pre_release:
+            return self.major < other.major
+        if self_is_pre_release:
             return other.version == TlsVersion.TLS1_3
-        if other.is_draft:
+        if other_is_pre_release:
             return self.version != TlsVersion.TLS1_3
 
         return self.major < other.major
